@@ -8,7 +8,7 @@ import tree_streams as TS
 MODULE = "Props.C05"
 THEOREMS = ["C05_bucket_seed_order_independent", "C05_entity_seed_order_independent", "C05_noise_depends_on_seeds_only", "C03_hashStrings_set",
             "addRow_relabel", "C05_add_row_position_independent", "C05_tree_position_independent", "C05_count_position_independent",
-            "harvest_sim_all", "C05_harvest_position_independent", "C05_buckets_equal"]
+            "harvest_sim_all", "C05_harvest_position_independent", "C05_buckets_equal", "C05_forest_tree_good"]
 PARTIAL = ["determinism of the implementation = 'implementation equals the (pure, functional) Lean model in every environment': established by "
            "bit-exact correspondence in this process and by equal digests across fresh interpreters with different PYTHONHASHSEED and perturbed global RNG state; "
            "T05.b is a Lean theorem for trees, released counts and harvested bucket lists (C05_tree_position_independent, "
